@@ -83,7 +83,7 @@ theorem commit_fc2 (ms : Mid) (bid : Id) :
   unfold Mid.commit; simp only []; rw [filter_any_eq ms.base.fc2 (·.id) ms.v2fces (·.e.id)]
   congr 1
 
-theorem Fc1Diff.current_id (d : Fc1Diff) : d.current.id = d.e.id := by
+theorem Fc1Diff.current_id_c1 (d : Fc1Diff) : d.current.id = d.e.id := by
   unfold Fc1Diff.current; split <;> rfl
 theorem Fc2Diff.current_id (d : Fc2Diff) : d.current.id = d.e.id := by
   unfold Fc2Diff.current; split <;> rfl
@@ -94,7 +94,7 @@ theorem wf_commit {T} {ms : Mid} (hc : Ctx T ms.base) (hw : WF ms.base) (hI : In
     (hc.nodup Kind.sc) (hI.struct.nodup_ids Kind.sc)
   have k2 := commit_ids_kind ms.base.sf (·.id) ms.sfes (·.e.id) (fun d => ¬ d.spent) (·.e) (fun _ => rfl)
     (hc.nodup Kind.sf) (hI.struct.nodup_ids Kind.sf)
-  have k3 := commit_ids_kind ms.base.fc1 (·.id) ms.fces (·.e.id) (fun d => ¬ d.resolved) (·.current) Fc1Diff.current_id
+  have k3 := commit_ids_kind ms.base.fc1 (·.id) ms.fces (·.e.id) (fun d => ¬ d.resolved) (·.current) Fc1Diff.current_id_c1
     (hc.nodup Kind.fc1) (hI.struct.nodup_ids Kind.fc1)
   have k4 := commit_ids_kind ms.base.fc2 (·.id) ms.v2fces (·.e.id) (fun d => d.resolution.isNone) (·.current) Fc2Diff.current_id
     (hc.nodup Kind.fc2) (hI.struct.nodup_ids Kind.fc2)
